@@ -267,6 +267,8 @@ mod report_block;
 mod sdes;
 mod sender;
 pub mod utils;
+#[cfg(feature = "verif-hooks")]
+pub mod verif_hooks;
 
 pub use app::{App, AppBuilder};
 pub use bye::{Bye, ByeBuilder};
